@@ -676,6 +676,29 @@ static void family_templates(du::rng &rng)
     jobj o; o.add("template", jstr("drain")).add("read_result", jnum(r)).add("ec", ec_json(ec));
     if (!pr.empty()) rep.fail("monitor", "C19/error-code", "drain: " + pr, o.str());
   }
+  // drain: an error code returned by a SINK is what drain returns -- whatever the code is, also the
+  // broken-pipe code that drain itself maps to success when it comes from poll
+  for (std::errc code : { std::errc::broken_pipe, std::errc::not_enough_memory, std::errc::io_error, std::errc::timed_out }) {
+    for (int which = 0; which < 2; which++) {
+      reproc::process p; capi_reset(); capi_script_clear();
+      int polls[] = { 1, REPROC_EPIPE }; capi_script_seq(CAPI_POLL, polls, 2);
+      int evs[] = { which == 0 ? reproc::event::out : reproc::event::err, 0 }; capi_script_poll_events(evs, 2);
+      capi_script(CAPI_READ, 4);
+      int data_calls = 0;
+      auto failing = [&](reproc::stream, const uint8_t *, size_t size) -> std::error_code {
+        if (size == 0) return {};
+        data_calls++;
+        return std::make_error_code(code);
+      };
+      auto quiet = [](reproc::stream, const uint8_t *, size_t) -> std::error_code { return {}; };
+      std::error_code ec = which == 0 ? reproc::drain(p, failing, quiet) : reproc::drain(p, quiet, failing);
+      rep.evaluations++; rep.count("templates/drain");
+      rep.nontrivial(du::hmix(du::hstr(7, "drain-sink-error"), static_cast<uint64_t>(static_cast<int>(code) * 2 + which)));
+      bool ok = ec == std::make_error_code(code) && data_calls == 1;
+      jobj o; o.add("template", jstr("drain")).add("sink_error", jnum(static_cast<int>(code))).add("failing_sink", jnum(which)).add("ec", ec_json(ec)).add("data_calls", jnum(data_calls));
+      if (!ok) rep.fail("monitor", "C19/drain-sink-error", "drain does not return the error code its sink returned (or went on after it)", o.str());
+    }
+  }
   // run(arguments, options): clone + redirect.parent, start, drain, stop(options.stop)
   long n = thorough ? 2000 : 60;
   auto fs = dopt::fields();
